@@ -19,7 +19,7 @@ REQUIRED = {"c05_child_lists>=3": 125, "c05_enclosed_by_decoded_top": 12, "c05_e
 
 
 def plan(tier, seed):
-    return ec.plan(ID, tier, seed, stride3=12)
+    return ec.plan(ID, tier, seed, stride3=12, also=("url",))  # results with decoder-built parts (URL pieces) side by side
 
 
 def run_shard(spec, ctx):
